@@ -93,7 +93,7 @@ RULE = (
     "every URL case run with suffix_aware=True the model splits the host with ITS OWN trie built from the regenerated "
     "suffix list (op lru_pairs_psl with an empty batch: nothing shipped from the real split_suffix) and must return "
     "the real split_suffix answer (roundtrip_string_psl has no host condition left: the former pslHostOK is gone with the fix "
-    "FX-C12-EMPTYLABELS; hosts with trailing dots / a leading dot are corpus cases, a host shape of the grammar and frequent among the mutated URLs). "
+    "FX-C12-ed8ae90; hosts with trailing dots / a leading dot are corpus cases, a host shape of the grammar and frequent among the mutated URLs). "
     "The distribution counts the evaluations inside the "
     "proved class (string-class:inside) and, outside, the clause that fails. "
     "Non-trivial = the URL has no '|', urlsplit accepts it and it is inside the grammar (wf); "
@@ -114,7 +114,7 @@ TRUSTED = [
 ASSUMPTIONS = [
     "C08 clause used as hypothesis (SplitRejoins / SplitRejoinsUrl) ONLY by the theorems with an abstract split_suffix (serialization_string, roundtrip_string_partial, accessors_string_partial, stems_wellformed, roundtrip_parts): when split_suffix(url) is not None its two parts re-join to the lower-cased urlsplit(url).hostname WITHOUT ITS TRAILING DOTS (what suffix_trie.py walks) — the first part is empty and the second is that string (bare suffix), or first + '.' + second is it (first may be empty there: '.co.uk' -> ('', 'co.uk')). This is Props.C08.split_rejoin literally; it holds for the real split_suffix on EVERY host (trailing dots, leading dot included), is a theorem for the model of suffix_trie.py (C13.splitRejoins_psl), so the theorems with suffix_trie.py inside (serialization_string_psl, roundtrip_string_psl, accessors_string_psl) have no such hypothesis, and it is checked by the oracle on every suffix-aware plain-host case of this run. Nothing is assumed about split_suffix on a bracketed IP literal: stems.py does not consult it there (fix of the former KF-C12-1), and the theorems do not either (hostSplit, splitLaw_bracketed)",
     "C08 case clause used as hypothesis (SplitCaseInv / SplitCaseInvUrl = Props.C08.split_case_insensitive at the hostname of u) by roundtrip_string_partial only, for suffix_aware=True and a plain host holding '%' (CPython's .hostname keeps the letter case of what follows a '%', the suffix-aware mode lower-cases the whole host): split_suffix answers the same for the lower-cased hostname; proved for suffix_trie.py (splitCaseInv_psl), checked by the oracle on every such case of this run",
-    "reading: hosts are compared lower-cased in suffix-aware mode (so a plain host with '%' is inside the reading: the accessor form B.hostname == A.hostname is NOT demanded there, it fails by design of CPython's .hostname); userinfo/host without raw '@', port without ':' (the grammar); 'userinfo' is compared as the pair (user or '', password or ''): empty and absent user/password are identified ('http://u:@h' comes back as 'http://u@h', 'http://@h' and 'http://:@h' as 'http://h'); 'host:' (empty port) and 'host' are the same port for the oracle (CPython .port is None for both). The former reading 'suffix-aware clause only for hosts without empty label' (DESIGN D35) is WITHDRAWN: every plain host is demanded, empty labels included (the loss of a trailing / lone leading empty label was the known finding KF-C12-2, repaired by FX-C12-EMPTYLABELS; its witnesses are corpus cases)",
+    "reading: hosts are compared lower-cased in suffix-aware mode (so a plain host with '%' is inside the reading: the accessor form B.hostname == A.hostname is NOT demanded there, it fails by design of CPython's .hostname); userinfo/host without raw '@', port without ':' (the grammar); 'userinfo' is compared as the pair (user or '', password or ''): empty and absent user/password are identified ('http://u:@h' comes back as 'http://u@h', 'http://@h' and 'http://:@h' as 'http://h'); 'host:' (empty port) and 'host' are the same port for the oracle (CPython .port is None for both). The former reading 'suffix-aware clause only for hosts without empty label' (DESIGN D35) is WITHDRAWN: every plain host is demanded, empty labels included (the loss of a trailing / lone leading empty label was the known finding KF-C12-2, repaired by FX-C12-ed8ae90; its witnesses are corpus cases)",
 ]
 UNPROVED = (
     "The parser hypothesis is discharged: roundtrip_string_partial / accessors_string_partial / serialization_string are "
@@ -133,7 +133,7 @@ UNPROVED = (
     "lower-cased hostname without its trailing dots) as a HYPOTHESIS; with suffix_trie.py inside (Props/C12Psl.lean) it is a theorem "
     "(C13.splitRejoins_psl): serialization_string_psl has NO hypothesis (every '|'-free string the parser accepts) and roundtrip_string_psl holds on "
     "the WHOLE class with NO host condition — the former condition pslHostOK ('no leading / trailing dot') is gone since the fix "
-    "FX-C12-EMPTYLABELS (stems.py emits the empty labels split_suffix does not return; formerly known finding KF-C12-2: "
+    "FX-C12-ed8ae90 (stems.py emits the empty labels split_suffix does not return; formerly known finding KF-C12-2: "
     "'http://a.co.uk./' came back as 'http://a.co.uk/', 'http://.co.uk/' as 'http://co.uk/'); the former refutation fullRoundtripStringPsl_false is "
     "replaced by the theorem fullRoundtripStringPsl and the former witnesses are Lean examples of the round trip (toy suffix list) and corpus cases "
     "(real list, every run). C08's case clause for hosts with '%' is proved, not assumed. "
@@ -193,7 +193,7 @@ CORPUS = [
     "http://A.CoM:80/", "http://me.github.io/p",
     # specials
     "localhost", "localhost:8080/a", "127.0.0.1:80", "http://1.2.3.4/", "http://LOCALHOST/",
-    # FX-C12-EMPTYLABELS (formerly KF-C12-2, D35): suffix-aware stems used to lose a trailing root label / the lone
+    # FX-C12-ed8ae90 (formerly KF-C12-2, D35): suffix-aware stems used to lose a trailing root label / the lone
     # leading dot in front of a public suffix (suffix_aware=False kept them); other empty labels round-tripped
     "http://a.co.uk./", "http://a.com./", "http://.co.uk/", "http://A.Co.UK..:80/x//y?q#f", "http://u:p@.com/", "http://x.www.ck./",
     "http://a..com/", "http://.a.com/", "http://..co.uk/", "http://a.b.notatld./", "http://localhost./", "http://[::1%a.co.uk.]/",
@@ -842,7 +842,7 @@ def oracle_url(url, sa):
 
 
 def empty_label_host(host, split):
-    """the class of the fix FX-C12-EMPTYLABELS (formerly known finding KF-C12-2): a plain host with trailing dot(s), or a
+    """the class of the fix FX-C12-ed8ae90 (formerly known finding KF-C12-2): a plain host with trailing dot(s), or a
     lone dot in front of its public suffix, for which split_suffix answers — the empty labels split_suffix does not
     return (distribution label only; nothing is excused)"""
     if split is None or host.startswith("[") or host == "":
@@ -908,7 +908,7 @@ def classify(case):
             # the class the fix FX-C12-df640b6 is about: split_suffix finds a suffix in the literal's text
             labs.append("bracketed-literal-with-public-suffix-text")
     if True in case["sa"] and sp and empty_label_host(sp[0], split) and in_reading(A, True):
-        labs.append("fixed-region(FX-C12-EMPTYLABELS:trailing-dot/lone-leading-dot-with-suffix)")
+        labs.append("fixed-region(FX-C12-ed8ae90:trailing-dot/lone-leading-dot-with-suffix)")
     if True in case["sa"]:
         labs.append("split=" + ("none" if split is None else "suffix-only" if split[0] == "" else "%d-label-suffix" % (split[1].count(".") + 1)))
     if "//" in A[2] or A[2].endswith("/"):
